@@ -49,3 +49,37 @@ fn parser2_name3() {
     }
     std::mem::forget(r);
 }
+
+/// integer followed by one arbitrary white-space or delimiter byte: the value is the integer, the cursor rests right after it
+/// (the n g R look-ahead must roll back). Leading token concrete ("42"), the following byte symbolic.
+#[kani::proof]
+#[kani::stub(std::fmt::format, nofmt)]
+#[kani::stub(std::string::String::from_utf8_lossy, nolossy)]
+#[kani::stub(std::str::from_utf8, ascii_utf8)]
+fn parser2_int_then_sep() {
+    let s0: u8 = kani::any();
+    kani::assume(ws(s0) || delim(s0));
+    let buf = [b'4', b'2', s0];
+    let mut lx = Lexer::new(&buf);
+    let r = _parse_with_lexer_ctx(&mut lx, &NoResolve, None, ParseFlags::ANY, 1);
+    let ok = matches!(&r, Ok(Primitive::Integer(42)));
+    std::mem::forget(r);
+    assert!(ok);
+    assert!(lx.get_pos() == 2);
+}
+/// the same integer at the very end of the buffer (an object-stream member without trailing white-space, C11)
+#[kani::proof]
+#[kani::stub(std::fmt::format, nofmt)]
+#[kani::stub(std::string::String::from_utf8_lossy, nolossy)]
+#[kani::stub(std::str::from_utf8, ascii_utf8)]
+fn parser2_int_at_end() {
+    let d: u8 = kani::any();
+    kani::assume(d >= b'0' && d <= b'9');
+    let buf = [b'4', d];
+    let mut lx = Lexer::new(&buf);
+    let r = _parse_with_lexer_ctx(&mut lx, &NoResolve, None, ParseFlags::ANY, 1);
+    let ok = matches!(&r, Ok(Primitive::Integer(v)) if *v == 40 + (d - b'0') as i32);
+    std::mem::forget(r);
+    assert!(ok);
+    assert!(lx.get_pos() == 2);
+}
